@@ -7,6 +7,50 @@ from . import cast, engc, solve, contract
 _TUS = {}
 
 
+def decl_list(fn):
+    """parameters then local variables of a function, in declaration order: [[name, type], ...]"""
+    out = [[n, t] for n, t in cast.params_of(fn)]
+
+    def scan(n):
+        if isinstance(n, dict):
+            if n.get('kind') == 'VarDecl':
+                out.append([n.get('name'), n.get('type', {}).get('qualType') if isinstance(n.get('type'), dict) else n.get('type')])
+            for x in n.get('inner', []):
+                scan(x)
+    scan(cast.body_of(fn))
+    return out
+
+
+RENAMES = {}      # (relpath, function) -> {recorded name: current name}
+
+
+def apply_renames(relpath, tu):
+    """contracts name parameters and loop-carried locals.  A version of the code that only renames some of them (same number of declarations,
+    same types, same positions as recorded in contracts/locals.json) is mapped onto the recorded names; anything else is left to fail as drift."""
+    import json, os
+    p = os.path.join(os.path.dirname(os.path.dirname(os.path.abspath(__file__))), 'contracts', 'locals.json')
+    if not os.path.exists(p) or relpath not in contract.REGISTRY:
+        return
+    rec = json.load(open(p)).get(relpath, {})
+    cfile = contract.REGISTRY[relpath]
+    for kname, K in cfile.kernels.items():
+        f = kname.split('#')[0]
+        if f not in rec or f not in tu['functions'] or getattr(K, '_renames_done', False):
+            continue
+        K._renames_done = True
+        old = rec[f]; cur = decl_list(tu['functions'][f])
+        if len(old) != len(cur) or any(str(a[1]) != str(b[1]) for a, b in zip(old, cur)):
+            continue
+        mp = {a[0]: b[0] for a, b in zip(old, cur) if a[0] != b[0]}
+        if not mp:
+            continue
+        # a pure renaming: injective, and no new name may capture an identifier the contract already uses for something else
+        if len(set(mp.values())) != len(mp) or (set(mp.values()) & {a[0] for a in old if a[0] not in mp}):
+            continue
+        contract.rename_kernel(K, mp)
+        RENAMES[(relpath, kname)] = mp
+
+
 def load_tus(relpaths):
     todo = [r for r in relpaths if r not in _TUS]
     if todo:
@@ -14,6 +58,8 @@ def load_tus(relpaths):
     with cf.ThreadPoolExecutor(8) as ex:
         for r, tu in zip(todo, ex.map(cast.load, todo)):
             _TUS[r] = tu
+    for r in todo:
+        apply_renames(r, _TUS[r])
     return _TUS
 
 
